@@ -10,7 +10,7 @@ import lanes
 FT = [("f32", 4, 8, 23), ("f64", 8, 11, 52)]
 UN = ["neg", "abs", "sqrt", "not", "bitofsign", "sign", "signnz", "op-u", "op~"]
 PRED = ["isnan", "isinf", "isfinite", "is_flint", "is_even", "is_odd"]
-BIN = ["add", "sub", "mul", "div", "min", "max", "copysign", "nextafter", "op+", "op-", "op*", "op/"]
+BIN = ["add", "sub", "mul", "div", "min", "max", "fmin", "fmax", "copysign", "nextafter", "op+", "op-", "op*", "op/"]
 BITS = ["and", "or", "xor", "andnot", "op&", "op|", "op^"]
 TER = ["fma", "fms", "fnma", "fnms"]
 
